@@ -481,7 +481,8 @@ fn part_chain2(shard: &Shard, journal: &Journal, rep: &mut Report) {
 		plans.push((2, KINDS_ALL.to_vec(), vec![(0, 0)], vec![(None, None)]));
 		plans.push((2, KINDS_QUICK3.to_vec(), assert_quick.clone(), mask(2, true)));
 	} else {
-		plans.push((2, KINDS_ALL.to_vec(), assert_all.clone(), mask(2, false)));
+		plans.push((2, KINDS_ALL.to_vec(), assert_all.clone(), mask(2, true)));
+		plans.push((2, KINDS_QUICK3.to_vec(), vec![(0, 0)], mask(2, false)));
 		plans.push((3, KINDS_QUICK3.to_vec(), vec![(0, 0), (0, 3), (3, 0)], mask(3, true)));
 	}
 	for (nn, kinds, asserts, masks) in plans {
